@@ -154,6 +154,7 @@ func c13Scenarios(c *fw.Ctx) []*Scenario {
 		}}
 	}
 	snapshot := func(bound int, withSecondWriter bool, name string) *Scenario {
+		readOnly := strings.Contains(name, "readonly")
 		return &Scenario{Name: name, Bound: bound, Make: func() ([]func(), func(*vrt.Sched) (string, string, string)) {
 			vrt.SetPagesize(16)
 			os.WriteFile(path, initial, 0644)
@@ -176,7 +177,12 @@ func c13Scenarios(c *fw.Ctx) []*Scenario {
 				}
 			}
 			reader := func() {
-				db, err := wt.Open(path)
+				var opts []wt.Option
+				if readOnly {
+					// a handle that only reads, opened read-only: locking is still on by default
+					opts = append(opts, wt.WithOpenFileFlag(os.O_RDONLY))
+				}
+				db, err := wt.Open(path, opts...)
 				if err != nil {
 					addErr(err.Error())
 					return
@@ -400,6 +406,7 @@ func c13Scenarios(c *fw.Ctx) []*Scenario {
 		incr(3, 16, b3-1, "S1-three-writers-page16"),
 		snapshot(b2, false, "S2-writer-reader"),
 		snapshot(b3-1, true, "S2-two-writers-reader"),
+		snapshot(b2, false, "S2-writer-readonly-reader"),
 		lifetime,
 		creator,
 		cmdReader,
@@ -581,8 +588,55 @@ func c13Process(c *fw.Ctx) {
 	cmd.Wait()
 }
 
+// ---- S7: a command's sessions end with the command.  Every command of the C16 grid (ok environment and the
+// faulty ones) is executed in-process; when Execute has returned, no file may still be locked through a handle the
+// command opened - a later Open of that path in the same process would wait for ever.
+func c13Commands(c *fw.Ctx) {
+	TrackLocks = true
+	defer func() { TrackLocks = false }()
+	n := 0
+	reported := map[string]bool{}
+	for _, world := range []int{0, 1, 5} {
+		for _, cmd := range c16Cmds {
+			for _, arch := range []int{-1, 0, 2} {
+				for _, win := range []string{"default", "past", "beyond-all", "inverted"} {
+					if cmd == "generate" && (arch != -1 || win != "default") {
+						continue
+					}
+					for _, env := range c16Envs {
+						if (env == "generate-dest-exists" && cmd != "generate") || (cmd == "generate" && strings.HasPrefix(env, "src-")) {
+							continue
+						}
+						if !c.Mine() {
+							continue
+						}
+						k := c16Case{World: world, Cmd: cmd, Archive: arch, Window: win, TextOut: "none", Env: env}
+						LockLeaks = nil
+						c16Eval(c, k)
+						n++
+						c.Count("command_sessions", 1)
+						if len(LockLeaks) > 0 {
+							sig := "C13/S7-command-sessions/lock-left-behind/" + cmd
+							if !reported[sig] {
+								reported[sig] = true
+								c.Violate(sig, fmt.Sprintf("%s (world %d, archive %d, window %s, environment %s) returned, but %s is still locked through a handle the command opened: a later Open in this process waits for ever", cmd, world, arch, win, env, filepath.Base(LockLeaks[0])), 10, c13CmdCase{Kind: "command", Case: k}, "")
+							}
+						}
+					}
+				}
+			}
+		}
+	}
+}
+
+type c13CmdCase struct {
+	Kind string  `json:"kind"`
+	Case c16Case `json:"case"`
+}
+
 func runC13(c *fw.Ctx) {
 	c13Fails(c)
+	c13Commands(c)
 	scs := c13Scenarios(c)
 	for _, sc := range scs {
 		ExploreScenario(c, "C13", sc)
@@ -602,6 +656,14 @@ func replayC13(c *fw.Ctx, raw json.RawMessage) (bool, string) {
 	if json.Unmarshal(raw, &f) == nil && f.Kind != "" {
 		if f.Kind == "process" {
 			return false, "process-level cases are re-run by the check itself"
+		}
+		if f.Kind == "command" {
+			var cc c13CmdCase
+			json.Unmarshal(raw, &cc)
+			TrackLocks, LockLeaks = true, nil
+			defer func() { TrackLocks = false }()
+			c16Eval(c, cc.Case)
+			return len(LockLeaks) > 0, fmt.Sprint("files left locked: ", LockLeaks)
 		}
 		sig, desc, _ := c13FailEval(c, f)
 		return sig != "", desc
